@@ -21,6 +21,7 @@ import (
 
 type c01Case struct {
 	Files [][]byte `json:"files"`
+	Message string `json:"message,omitempty"` // message of the commit that stores the tree and commit objects ("" = "c01")
 }
 
 func hostileContent(b []byte) bool {
@@ -138,6 +139,20 @@ func runC01(c *c01Case) error {
 			stats.Nontrivial("blob:" + want)
 		}
 	}
+	// (1b) several files in one call: one id per file, in argument order, each the id of that file alone
+	if len(c.Files) > 0 {
+		args := []string{"hash-object"}
+		var wantOut string
+		for i := len(c.Files) - 1; i >= 0; i-- {
+			args = append(args, fmt.Sprintf("f%d", i))
+			wantOut += gitfmt.HashObject("blob", c.Files[i]) + "\n"
+		}
+		args = append(args, "f0", "f0.copy")
+		wantOut += strings.Repeat(gitfmt.HashObject("blob", c.Files[0])+"\n", 2)
+		if r := b.Run(args...); !r.OK() || r.Stdout != wantOut {
+			return fmt.Errorf("%v prints %q, the ids of these files are %q", args, r.Stdout, wantOut)
+		}
+	}
 	// (5) an id that was never stored is an error, not data
 	unknown := gitfmt.HashObject("blob", []byte("never stored \x00 content"))
 	if r := b.Run("cat-file", "-p", unknown); r.Exit != 1 || r.Panic {
@@ -145,11 +160,20 @@ func runC01(c *c01Case) error {
 	}
 	// tree and commit objects: the ones commit creates
 	pre := Observe(b)
-	r := b.Run("commit", "-m", "c01")
+	msg := c.Message
+	if msg == "" {
+		msg = "c01"
+	}
+	r := b.Run("commit", "-m", msg)
 	if !r.OK() {
-		return fmt.Errorf("commit failed: %s", r)
+		return fmt.Errorf("commit -m %q failed: %s", preview([]byte(msg)), r)
 	}
 	post := Observe(b)
+	if hc, err := gitfmt.ReadCommit(post.Store, post.HeadCommit()); err != nil {
+		return fmt.Errorf("after commit -m %s the commit object of HEAD is not stored intact: %v", preview([]byte(msg)), err)
+	} else if hc.Message != msg+"\n" {
+		return fmt.Errorf("commit -m %s stored the message %s", preview([]byte(msg)), preview([]byte(hc.Message)))
+	}
 	for id := range post.Objects {
 		if pre.Objects[id] {
 			continue
@@ -228,7 +252,15 @@ func TestC01CLI(t *testing.T) {
 		for i := 0; i < n; i++ {
 			c.Files = append(c.Files, g.Content())
 		}
+		if g.Chance(50, "hostileMessage") {
+			c.Message = g.Message(true)
+			if strings.Contains(c.Message, "{{") {
+				c.Message = "c01" // symbolic ids are resolved by the scenario engine only
+			}
+		}
 		stats.Eval()
+		stats.LabelIf(strings.Contains(c.Message, "\r"), "message:CR")
+		stats.LabelIf(len(c.Message) > 65535, "message:line>64KiB")
 		for _, f := range c.Files {
 			stats.LabelIf(len(f) == 0, "content:empty")
 			stats.LabelIf(len(f) > 4096, "content:>4KiB")
